@@ -690,6 +690,10 @@ class _MutableSetMixin:
         if it is self:
             self.clear()
         else:
+            # Each key toggles membership exactly once, however often
+            # an arbitrary iterable repeats it.
+            if not isinstance(it, _Base):
+                it = set(it)
             for value in it:
                 if value in self:
                     self.discard(value)
